@@ -11,6 +11,7 @@ from __future__ import annotations
 import inspect
 import itertools
 import json
+import warnings
 
 import numpy as np
 
@@ -1165,13 +1166,365 @@ def section_pytree(env, ctx, model):
                 ctx.disagree("block.pytree", {"section": "pytree", "struct": st, "kind": kd, "x": jsonable(x)}, "round trip / jit / grad mismatch", "identity")
 
 
+# ---------------------------------------------------------------------------------------------
+# round 2: scico.random wrappers, assignment of blocks, transparency to jax transformations
+
+
+RANDOM_REQUIRED = {
+    "d": 3, "p": 0.5, "a": 2.0, "b": 3.0, "n": 2, "axis": -1, "df": 3.0, "loc": 0.0, "scale": 1.5, "dfnum": 3.0, "dfden": 4.0,
+    "sigma": 1.0, "lam": 2.0, "minval": 0, "maxval": 5, "left": 0.0, "mode": 0.5, "right": 1.0, "lower": -1.0, "upper": 1.0,
+    "concentration": 1.5, "replace": True, "method": "cholesky",
+}
+
+
+def _random_values(env, name, params):
+    """values for the parameters of jax.random.<name> other than key / shape / dtype"""
+    jnp = env.jnp
+    vals = dict(RANDOM_REQUIRED)
+    if name == "binomial":
+        vals["n"] = 5.0
+    if name == "categorical":
+        vals["logits"] = jnp.array([0.5, 0.25, 0.25])
+    if name == "dirichlet":
+        vals["alpha"] = jnp.array([1.0, 2.0])
+    if name == "multivariate_normal":
+        vals["mean"], vals["cov"] = jnp.zeros(2), jnp.eye(2)
+    if name == "choice":
+        vals["a"] = 5
+    if name in ("randint",):
+        vals["minval"], vals["maxval"] = 0, 5
+    if name == "uniform":
+        vals["minval"], vals["maxval"] = 0.0, 1.0
+    out = {}
+    for p in params:
+        if p.name in ("key", "shape", "dtype"):
+            continue
+        if p.name in vals:
+            out[p.name] = vals[p.name]
+        elif p.default is not inspect.Parameter.empty:
+            out[p.name] = p.default
+        else:
+            return None
+    return out
+
+
+def _rval(v, name, atoms):
+    """python value -> request form of the model's `RVal` (+ atoms)"""
+    if v is None:
+        return {"none": True}
+    if isinstance(v, (tuple, list)) and not isinstance(v, bool) and all(isinstance(s, (int, tuple, list)) for s in v):
+        return {"shape": be.shape_tree(v)}
+    atoms[name] = v
+    return {"o": A(name)}
+
+
+def section_random(env, ctx, model):
+    """`scico.random.<name>` = `_add_seed(map_func_over_tuple_of_tuples(jax.random.<name>))` against the model:
+    where key and seed are read from, key xor seed, default seed 0, every block drawn with the effective key,
+    returned key = split(key)[0]"""
+    rng = ctx.rng
+    jax, sr = env.jax, env.srandom
+    env.py["split0"] = lambda k: jax.random.split(k, 2)[0]
+    names = list(sr.wrappable_func_names)
+    ctx.extra["random_wrapped_names"] = len(names)
+    always = [n for n in ("normal", "uniform", "randint", "gamma") if n in names]
+    if ctx.thorough:
+        chosen = names
+    else:
+        rest = [n for n in names if n not in always]
+        chosen = always + [rest[int(i)] for i in rng.permutation(len(rest))[:5]]
+    key1, key2 = jax.random.PRNGKey(3), jax.random.PRNGKey(11)
+    shapes = [((2,), (3,)), ((2,), (2,)), (2,), ((2, 1), (), (3,))] if ctx.thorough else [((2,), (2,)), (3,), ((1, 2), (3,))]
+    for name in chosen:
+        raw = getattr(jax.random, name)
+        params = list(inspect.signature(raw).parameters.values())
+        pnames = [p.name for p in params]
+        vals = _random_values(env, name, params)
+        if vals is None or pnames[0] != "key" or "shape" not in pnames:
+            ctx.count("random:skipped-no-values")
+            continue
+        fn = getattr(sr, name)
+        for sh in shapes:
+            def full_pos(upto=None):
+                """positional values for params[1:] (up to and including `upto`)"""
+                out = []
+                for p in params[1:]:
+                    if p.name == "shape":
+                        out.append(sh)
+                    elif p.name == "dtype":
+                        out.append(p.default)
+                    else:
+                        out.append(vals[p.name])
+                    if p.name == upto:
+                        break
+                return out
+
+            kwv = dict(vals)
+            forms = [
+                ("allkw+key", [], dict(kwv, shape=sh, key=key1)),
+                ("pos-to-shape+key", full_pos("shape"), {"key": key1}),
+                ("allpos+key-pos", full_pos() + [key1], {}),
+                ("allpos+key-pos+seed-none", full_pos() + [key1, None], {}),
+                ("allpos+none+seed-pos", full_pos() + [None, 7], {}),
+                ("no-key", [], dict(kwv, shape=sh)),
+                ("seed-kw", [], dict(kwv, shape=sh, seed=5)),
+                ("key+seed", [], dict(kwv, shape=sh, key=key1, seed=5)),
+                ("key-pos+seed-kw", full_pos() + [key1], {"seed": 2}),
+                ("key-pos+key-kw", full_pos() + [key1], {"key": key2}),
+                ("key-none-kw+seed", [], dict(kwv, shape=sh, key=None, seed=4)),
+                ("too-many-positional", full_pos() + [key1, None, 99], {}),
+            ]
+            if not ctx.thorough:
+                keep = {0, 2, 5, 7, int(rng.integers(1, len(forms)))}
+                forms = [f for i, f in enumerate(forms) if i in keep]
+            for tag, a, k in forms:
+                k_full = dict(k)
+                k = dict(k)
+                atoms = {"None": None, "int0": 0}
+                jargs = [_rval(v, f"p{i}", atoms) for i, v in enumerate(a)]
+                kwkey = _rval(k.pop("key", None), "kwkey", atoms)
+                kwseed = _rval(k.pop("seed", None), "kwseed", atoms)
+                jkw = [[kk, _rval(v, f"k_{kk}", atoms)] for kk, v in k.items()]
+                ev = Evaluator(atoms, env.resolve)
+                m = run2(model, "random", dict(fn="jr:" + name, params=pnames, args=jargs, kwkey=kwkey, kwseed=kwseed, kwargs=jkw), ev)
+                with warnings.catch_warnings():
+                    warnings.simplefilter("ignore")
+                    impl = impl_call(fn, a, k_full)
+                nested = isinstance(sh[0], tuple) if len(sh) else False
+                ctx.case({"section": "random", "fn": name, "form": tag, "shape": str(sh)}, ("random", name, tag, str(sh)) if nested else None)
+                ctx.count("random:cases")
+                ctx.count(f"random:model={'err:' + m[1] if m[0] == 'err' else 'ok'}")
+                if m[0] == "err":
+                    good = impl[0] == "err" and impl[1] == m[1]
+                elif impl[0] == "err":
+                    good = False
+                else:
+                    try:
+                        r, newkey = impl[1]
+                        good = compare(env, ("ok", m[1]["val"]), ("ok", r), ev) and same(ev.val(m[1]["key"]), newkey)
+                    except Exception:  # noqa: BLE001
+                        good = False
+                if not good:
+                    def rnd_oracle(c, impl=impl, name=name, a=a, k=k, atoms=atoms, sh=sh, raw=raw, vals=vals):
+                        # the documented behaviour written directly: key xor seed, default seed 0, one jax draw per (inner) shape
+                        # with the effective key, returned key = split(key)[0]
+                        kk = atoms.get("kwkey")
+                        ss = atoms.get("kwseed")
+                        npar = len(pnames)
+                        if len(a) >= npar:
+                            kk = a[npar - 1]
+                        if len(a) > npar:
+                            ss = a[npar]
+                        if kk is not None and ss is not None:
+                            want = ("err", "value")
+                        else:
+                            eff = kk if kk is not None else jax.random.PRNGKey(0 if ss is None else ss)
+                            try:
+                                bound = inspect.signature(raw).bind(eff, *a[: npar - 1], **k).arguments
+                                shp = bound.get("shape")
+                                from scico.numpy import util
+
+                                if shp is not None and util.is_nested(shp):
+                                    want = ("ok", [raw(**dict(bound, shape=s)) for s in shp], jax.random.split(eff, 2)[0])
+                                else:
+                                    want = ("ok", raw(**bound), jax.random.split(eff, 2)[0])
+                            except Exception as e:  # noqa: BLE001
+                                want = ("err", common.err_kind(e))
+                        if want[0] == "err":
+                            bad = impl[0] != "err"
+                        elif impl[0] == "err":
+                            bad = True
+                        else:
+                            r, nk = impl[1]
+                            bad = not (same(nk, want[2]) and (same(r, env.BlockArray(want[1])) if isinstance(want[1], list) else same(r, want[1])))
+                        if bad:
+                            return {"call": f"scico.random.{name}", "args": [jsonable(x) for x in a], "kwargs": {q: jsonable(v) for q, v in k.items()},
+                                    "key": str(kk), "seed": str(ss), "scico_result": show_impl(impl) if impl[0] == "err" else be.describe(impl[1]),
+                                    "documented": {"err": want[1]} if want[0] == "err" else be.describe(list(want[1:]))}
+                        return None
+
+                    ctx.disagree("block.random", {"section": "random", "fn": name, "form": tag, "shape": str(sh)}, show_impl(impl) if impl[0] == "err" else be.describe(impl[1]),
+                                 show(env, ("ok", m[1]["val"]), ev) if m[0] == "ok" else {"err": m[1]}, oracle=rnd_oracle)
+
+
+
+
+def section_setitem(env, ctx, model):
+    """`x[k] = v` against the model; the property itself (one homogeneous dtype, blocks are arrays) is evaluated on
+    the result"""
+    rng = ctx.rng
+    jnp, BA = env.jnp, env.BlockArray
+    for it in range(ctx.n(30, 200)):
+        n = int(rng.integers(1, 5))
+        dts = [jnp.float64, jnp.float32, jnp.int64, jnp.complex128]
+        d0 = dts[int(rng.integers(0, 4))]
+        x = BA([jnp.arange(i + 1).astype(d0) for i in range(n)])
+        k = int(rng.integers(-n - 1, n + 1))
+        r = rng.random()
+        if r < 0.4:
+            v, vtag = jnp.ones(2).astype(d0), "same-dtype"
+        elif r < 0.7:
+            v, vtag = jnp.ones(2).astype(dts[(dts.index(d0) + 1 + int(rng.integers(0, 3))) % 4]), "other-dtype"
+        elif r < 0.85:
+            v, vtag = [1.0, 2.0], "list"
+        else:
+            v, vtag = np.ones(3, dtype=np.dtype(d0)), "numpy-same-dtype"
+        atoms = {f"s#{i}": x.arrays[i] for i in range(n)}
+        atoms["v"] = v
+        ev = Evaluator(atoms, env.resolve)
+        m = run2(model, "setitem", dict(blocks=[A(f"s#{i}") for i in range(n)], k=k, v=A("v")), ev)
+
+        def do():
+            x[k] = v
+            return x
+
+        impl = impl_call(do, [], {})
+        ctx.case({"section": "setitem", "n": n, "k": k, "value": vtag}, ("setitem", n, k, vtag))
+        ctx.count(f"setitem:{vtag}")
+        ctx.count(f"setitem:model={'err:' + m[1] if m[0] == 'err' else 'ok'}")
+        # the property on the real object
+        broken = None
+        if impl[0] == "ok":
+            blocks = impl[1].arrays
+            if not all(isinstance(b, jnp.ndarray) for b in blocks):
+                broken = "a block is not an array"
+            elif len({str(b.dtype) for b in blocks}) > 1:
+                broken = "heterogeneous dtypes"
+        agree = (m[0] == "err" and impl == ("err", m[1])) or (m[0] == "ok" and impl[0] == "ok" and len(impl[1].arrays) == len(m[1]["blk"])
+                                                             and all(same_or_identical(ev.val(t), impl[1].arrays[i]) for i, t in enumerate(m[1]["blk"])))
+        if broken or not agree:
+            fail = {"statement": f"x[{k}] = v", "x_dtype": str(np.dtype(d0)), "n_blocks": n, "value": vtag,
+                    "result_blocks": [type(b).__name__ + ":" + str(getattr(b, "dtype", "-")) for b in impl[1].arrays] if impl[0] == "ok" else {"err": impl[1]},
+                    "violates": broken}
+            ctx.disagree("block.setitem", {"section": "setitem", "n": n, "k": k, "value": vtag, "dtype": str(np.dtype(d0))},
+                         fail["result_blocks"], show(env, m, ev) if m[0] == "ok" else {"err": m[1]},
+                         oracle=(lambda c, fail=fail: fail) if broken else None)
+
+
+def same_or_identical(a, b):
+    if a is b:
+        return True
+    try:
+        return same(a, b)
+    except Exception:  # noqa: BLE001
+        return False
+
+
+def transparency_probes(env):
+    """[(name, thunk -> (got, want))]: jax transformations applied to functions of a block array against the same
+    transformation applied block by block / to the tuple of the blocks"""
+    jax, jnp, snp, BA = env.jax, env.jnp, env.snp, env.BlockArray
+    x = BA([jnp.array([[1.0, 2.0], [3.0, 4.0]]), jnp.array([0.5, -1.5, 2.0])])
+    xb = BA([jnp.ones((4, 3)), jnp.arange(4.0)])
+    f = lambda v: snp.sum(v * v * v)  # noqa: E731
+    ft = lambda t: sum(jnp.sum(b * b * b) for b in t)  # noqa: E731
+    tup = tuple(x.arrays)
+
+    def blocks_of(r):
+        return jax.tree_util.tree_leaves(r)
+
+    probes = [
+        ("placeholder-object", lambda: (jax.tree_util.tree_leaves(jax.tree_util.tree_unflatten(jax.tree_util.tree_structure(x), ["p", "q"]), is_leaf=lambda z: isinstance(z, str)), ["p", "q"])),
+        ("placeholder-none", lambda: (jax.tree_util.tree_map(lambda a: None, x).arrays, [None, None])),
+        ("tree_map-shape", lambda: (jax.tree_util.tree_map(lambda a: a.shape, x).arrays, [(2, 2), (3,)])),
+        ("eval_shape", lambda: ([(s.shape, str(s.dtype)) for s in jax.eval_shape(lambda v: v * 2, x).arrays], [((2, 2), "float64"), ((3,), "float64")])),
+        ("vmap", lambda: (blocks_of(jax.vmap(lambda v: v * 2)(xb)), [b * 2 for b in xb.arrays])),
+        ("hessian", lambda: (blocks_of(jax.hessian(f)(x)), blocks_of(jax.hessian(ft)(tup)))),
+        ("jacfwd", lambda: (blocks_of(jax.jacfwd(lambda v: v * 2)(x)), blocks_of(jax.jacfwd(lambda t: tuple(b * 2 for b in t))(tup)))),
+        ("jacrev", lambda: (blocks_of(jax.jacrev(lambda v: v * 2)(x)), blocks_of(jax.jacrev(lambda t: tuple(b * 2 for b in t))(tup)))),
+        ("jit-lower", lambda: (blocks_of(jax.jit(lambda v: v * 2).lower(x).compile()(x)), [b * 2 for b in x.arrays])),
+        ("pure_callback", lambda: (blocks_of(jax.pure_callback(lambda v: v, x, x)), list(x.arrays))),
+        # transformations that only unflatten with arrays / tracers
+        ("jit", lambda: (blocks_of(jax.jit(lambda v: v * 2)(x)), [b * 2 for b in x.arrays])),
+        ("grad", lambda: (blocks_of(jax.grad(f)(x)), blocks_of(jax.grad(ft)(tup)))),
+        ("jvp", lambda: (blocks_of(jax.jvp(f, (x,), (x,))), blocks_of(jax.jvp(ft, (tup,), (tup,))))),
+        ("vjp", lambda: (blocks_of(jax.vjp(lambda v: v * 2, x)[1](x)), [b * 2 for b in x.arrays])),
+        ("linearize", lambda: (blocks_of(jax.linearize(lambda v: v * 2, x)[1](x)), [b * 2 for b in x.arrays])),
+        ("scan-carry", lambda: (blocks_of(jax.lax.scan(lambda c, _: (c * 2, None), x, None, length=3)[0]), [b * 8 for b in x.arrays])),
+        ("cond", lambda: (blocks_of(jax.lax.cond(True, lambda v: v * 2, lambda v: v, x)), [b * 2 for b in x.arrays])),
+        ("while_loop", lambda: (blocks_of(jax.lax.while_loop(lambda c: c[1] < 3, lambda c: (c[0] * 2, c[1] + 1), (x, 0))[0]), [b * 8 for b in x.arrays])),
+        ("checkpoint-grad", lambda: (blocks_of(jax.grad(jax.checkpoint(f))(x)), blocks_of(jax.grad(ft)(tup)))),
+        ("nested-dict-jit", lambda: (blocks_of(jax.jit(lambda d: {"a": d["a"] * 2, "b": (d["b"][0] + 1,)})({"a": x, "b": (x,)})), [b * 2 for b in x.arrays] + [b + 1 for b in x.arrays])),
+        ("nested-grad", lambda: (blocks_of(jax.grad(lambda d: snp.sum(d["a"] * d["a"]) + snp.sum(d["b"][0]))({"a": x, "b": (x,)})), [2 * b for b in x.arrays] + [jnp.ones_like(b) for b in x.arrays])),
+        ("flatten_with_path", lambda: ([v for _, v in jax.tree_util.tree_flatten_with_path(x)[0]], list(x.arrays))),
+        ("tree_map-two", lambda: (blocks_of(jax.tree_util.tree_map(lambda a, b: a + b, x, x)), [b + b for b in x.arrays])),
+    ]
+    return probes
+
+
+KNOWN_FLATTEN = "blockarray-pytree-flatten-placeholders"
+# transformations that flatten a block array holding placeholder leaves again
+FLATTEN_PROBES = {"placeholder-object", "vmap", "hessian", "jacfwd", "jacrev", "jit-lower", "pure_callback"}
+
+
+def section_transparency(env, ctx, model):
+    """the property itself on the real code: a block array goes through jax transformations like the tuple of its blocks"""
+    for name, thunk in transparency_probes(env):
+        with warnings.catch_warnings():
+            warnings.simplefilter("ignore")
+            try:
+                got, want = thunk()
+                okk = len(got) == len(want) and all(same(g, w, exact=False) for g, w in zip(got, want))
+                res = "ok" if okk else "differs"
+            except Exception as e:  # noqa: BLE001
+                res = f"raised {type(e).__name__}"
+                okk = False
+                got = want = None
+        ctx.case({"section": "transparency", "probe": name}, ("transparency", name))
+        ctx.count(f"transparency:{name}={res}")
+        if not okk:
+            fail = {"transformation": name, "on": "BlockArray([2x2, (3,)])", "outcome": res,
+                    "got": be.describe(got) if got is not None else None, "expected (tuple of the blocks)": be.describe(want) if want is not None else None}
+            ctx.disagree("block.transparency", {"section": "transparency", "probe": name}, res, "as for the tuple of the blocks",
+                         oracle=lambda c, fail=fail: fail, known_id=KNOWN_FLATTEN if (name in FLATTEN_PROBES and res.startswith("raised")) else None)
+    # the registered unflatten against the model, with placeholder leaves
+    jax, jnp, BA = env.jax, env.jnp, env.BlockArray
+    cands = [
+        ("object,object", [object(), object()]),
+        ("None,None", [None, None]),
+        ("array,None", [jnp.ones(2), None]),
+        ("ShapeDtypeStruct", [jax.ShapeDtypeStruct((2,), jnp.float64), jax.ShapeDtypeStruct((3,), jnp.float64)]),
+        ("int,int", [0, 0]),
+        ("str", ["a"]),
+        ("tuple-shapes", [(2, 3), (3,)]),
+        ("bool,bool", [True, False]),
+        ("f64,f32", [jnp.ones(2), jnp.zeros(3, dtype=jnp.float32)]),
+        ("f64,f64", [jnp.ones(2), jnp.zeros((2, 2))]),
+    ]
+    for tag, inputs in cands:
+        atoms = {f"i{j}": v for j, v in enumerate(inputs)}
+        ev = Evaluator(atoms, env.resolve)
+        m = run2(model, "unflatten", dict(inputs=[A(f"i{j}") for j in range(len(inputs))]), ev)
+        td = jax.tree_util.tree_structure(BA([jnp.zeros(1)] * len(inputs)))
+        with warnings.catch_warnings():
+            warnings.simplefilter("ignore")
+            impl = impl_call(lambda: jax.tree_util.tree_unflatten(td, inputs), [], {})
+        ctx.case({"section": "unflatten-placeholders", "inputs": tag}, ("unflatten", tag))
+        ctx.count(f"unflatten:{tag}:model={'err:' + m[1] if m[0] == 'err' else 'ok'}")
+        if m[0] == "err":
+            agree = impl[0] == "err" and impl[1] == m[1]
+        else:
+            agree = impl[0] == "ok" and isinstance(impl[1], BA) and len(impl[1].arrays) == len(m[1]["blk"]) and all(
+                same_or_identical(ev.val(t), impl[1].arrays[i]) for i, t in enumerate(m[1]["blk"]))
+        # jax's contract for registered nodes: the leaves come back as they are
+        all_arrays = all(isinstance(v, jnp.ndarray) for v in inputs)
+        transparent = impl[0] == "ok" and all(a is b for a, b in zip(impl[1].arrays, inputs))
+        if not agree:
+            ctx.disagree("block.unflatten", {"section": "unflatten-placeholders", "inputs": tag}, show_impl(impl) if impl[0] == "err" else [type(b).__name__ for b in impl[1].arrays],
+                         show(env, m, ev) if m[0] == "ok" else {"err": m[1]})
+        elif not all_arrays and not transparent:
+            fail = {"call": "jax.tree_util.tree_unflatten(treedef of a BlockArray, leaves)", "leaves": tag,
+                    "outcome": {"err": impl[1]} if impl[0] == "err" else [type(b).__name__ for b in impl[1].arrays], "expected": "the leaves, untouched"}
+            ctx.disagree("block.unflatten", {"section": "unflatten-placeholders", "inputs": tag}, fail["outcome"], "leaves untouched", oracle=lambda c, fail=fail: fail)
+
+
 def correspond(ctx, model):
     import time
 
     env = Env()
     timing = {}
     for sec in (run_corpus, section_names, section_reductions, section_creation, section_operators, section_methods,
-                section_wrappers, section_pytree):
+                section_wrappers, section_pytree, section_transparency, section_setitem, section_random):
         t0 = time.time()
         try:
             sec(env, ctx, model)
@@ -1246,6 +1599,16 @@ def findings(ctx, model):
         except Exception:  # noqa: BLE001
             still = True
         ctx.known_finding(KNOWN_TUPLE, still)
+    if ctx.is_known(KNOWN_FLATTEN):
+        jax = env.jax
+        x = env.BlockArray([env.jnp.ones((4, 3)), env.jnp.arange(4.0)])
+        still = False
+        for probe in (lambda: jax.vmap(lambda v: v * 2)(x), lambda: jax.hessian(lambda v: env.snp.sum(v * v * v))(x)):
+            try:
+                probe()
+            except Exception:  # noqa: BLE001
+                still = True
+        ctx.known_finding(KNOWN_FLATTEN, still)
     if ctx.is_known(KNOWN_RMOD):
         x = env.BlockArray([env.jnp.array([5.0, 7.0]), env.jnp.array(9.0)])
         try:
